@@ -315,3 +315,38 @@ for _m, _f in UQ_METHODS.items():
         snap.check()
         r2 = f(u)
         same_result(h, 'twice the same', r1, r2)
+
+
+# ----------------------------------------------------------------------------- option combinations of the interpolators (receiver and dest)
+
+for _sh in (False, True):
+    @claim(f'method:UnitQuaternion.interp-dest:shortest={_sh}')
+    def _(h, sh=_sh):
+        """both quaternions symbolic, so both signs of their inner product are explored"""
+        u, _ = c08.make(h, 'UnitQuaternion', 'U')
+        v, _ = c08.make(h, 'UnitQuaternion', 'V')
+        s = h.real('s', 0.1, 0.9)
+        snap = Snapshot(h, [u, v])
+        r1 = u.interp(s, dest=v, shortest=sh)
+        snap.check()
+        r2 = u.interp(s, dest=v, shortest=sh)
+        same_result(h, 'twice the same', r1, r2)
+
+    @claim(f'base-vec:slerp:shortest={_sh}')
+    def _(h, sh=_sh):
+        s1, c1 = h.sincos(h.angle('a'))
+        s2, c2 = h.sincos(h.angle('b'))
+        q0, q1 = h.arr([c1, s1, 0, 0]), h.arr([c2, 0, s2, 0])
+        s = h.real('s', 0.1, 0.9)
+        r1 = guarded(h, lambda a, b: base.slerp(a, b, s, shortest=sh), [q0, q1])
+        r2 = guarded(h, lambda a, b: base.slerp(a, b, s, shortest=sh), [q0, q1])
+        same_result(h, 'twice the same', r1, r2)
+
+
+@claim('method:SE3.interp-start', tier='thorough')
+def _(h):
+    X = SE3(_T(h), check=False)
+    Y = SE3(hom(h, rotz_ref(h, h.angle('b')), h.vec('u', 3, -5, 5)), check=False)
+    snap = Snapshot(h, [X, Y])
+    X.interp(0.5, start=Y)
+    snap.check()
